@@ -547,7 +547,7 @@ def table_nest_shape(rel, qual):
     from pyvc import loader
     try:
         fn = loader.module(rel).functions.get(qual)
-    except OSError:
+    except Exception:  # noqa  (unreadable / unparsable source: not the shape)
         return False
     if fn is None:
         return False
@@ -924,6 +924,15 @@ define(IN_N, _fold(IN_N, lambda k: z3.If(IM_DESC(IM_AT(k)) == lit(""), lit(""), 
 define(IN_S, _fold(IN_S, lambda k: z3.If(IM_DESC(IM_AT(k)) == lit(""), lit(""), cc(" ", SQ(caption_text(IM_AT(k)))))))
 
 
+UNIT = ext_sort("DocUnit")
+U_AT = z3.Function("doc.units.at", I, UNIT)
+U_TEXT = z3.Function("DocUnit.get_text", UNIT, S)
+UN_N = z3.Function("doc_unit_texts_nw", I, S)
+UN_S = z3.Function("doc_unit_texts_sq", I, S)
+define(UN_N, _fold(UN_N, lambda k: NW(U_TEXT(U_AT(k)))))
+define(UN_S, _fold(UN_S, lambda k: cc(" ", SQ(U_TEXT(U_AT(k))))))
+
+
 def p_objseq(sort, at):
     def mk(ex, st, name):
         n = z3.Int(f"{name}.len")
@@ -1007,8 +1016,43 @@ def dt_contracts(reg):
 
     # ---- DocContent.get_full_text: the documented title line ------------------------------------
     UNITS = z3.Const("doc.joined_unit_text", S)
-    out.append(FnContract(target=f"{DT}::_join_unit_text", params=[("units", Maker(lambda ex, st, n: VUnk(n), desc="iterator"))], assumed=True,
-                          returns=lambda c: VStr(UNITS), note="C03 decides what the joined unit text is"))
+    # (round 7) _join_unit_text VERIFIED: the joined text is the texts of the units, in order, separated by whitespace, outer whitespace
+    # stripped -- nothing lost, duplicated, reordered or invented between the units and the document text.  (WHICH units there are
+    # and what their text is stays C03's subject: `unit.get_text()` is uninterpreted.)  Call sites keep seeing "some string" (implied).
+    JU = find_fn(DT, "_join_unit_text", mentions=["get_text", "join"], nparams=1)
+    sj = Sig(DT, JU, ["units"])
+    reg.method_models[("DocUnit", "get_text")] = lambda ex, st, obj, a, k, n: [(st, VStr(U_TEXT(obj.t)))]
+    ju_own = []
+
+    def ju_inv(lc):
+        (_n0, c0, l0), (_n1, c1, l1) = grown(lc)
+        return Conj([("nw", NW(c1) == cc(NW(c0), UN_N(lc.i))), ("sq", l1 == cc(l0, UN_S(lc.i)))])
+
+    def ju_n(c):
+        v = sj(c, "units")
+        if not isinstance(v, VSeq):
+            raise X.Unsupported("units")
+        return v.length
+
+    def ju_clause(f):
+        return X.robust(lambda c: z3.BoolVal(True) if _is_call_site(c, ju_own[0]) else f(c))
+
+    ju = under(
+        DT, "_join_unit_text", JU,
+        params=sj.params({"units": p_objseq("DocUnit", U_AT)}),
+        result_maker=lambda ex, st, ctx: VStr(UNITS),
+        ensures=[need_loops("units"),
+                 ("nw(result)==nw-of-the-unit-texts-in-order", ju_clause(lambda c: NW(c.result.t) == UN_N(ju_n(c)))),
+                 ("sq(result)==unit-texts-separated-by-whitespace", ju_clause(lambda c: z3.Implies(ju_n(c) > 0, T.trim(SQ(c.result.t)) == T.trim(UN_S(ju_n(c))))))],
+        note="call sites: the result is the constant doc.joined_unit_text (some string; C03 decides which units exist)",
+    )
+    ju_own.append(ju)
+    ju.loop_match = lambda ex, st, node, it: (matched(ex, LoopSpec(inv=ju_inv, label="units")) if isinstance(it, VSeq) and it.ekind == "DocUnit" else None)
+    if sj.ok:
+        out.append(ju)
+    else:
+        out.append(FnContract(target=f"{DT}::_join_unit_text", params=[("units", Maker(lambda ex, st, n: VUnk(n), desc="iterator"))], assumed=True,
+                              returns=lambda c: VStr(UNITS), note="C03 decides what the joined unit text is"))
     out.append(FnContract(target=f"{DT}::DocContent.iterate_units", params=[("self", Maker(lambda ex, st, n: VUnk(n), desc="DocContent"))], assumed=True,
                           returns=lambda c: VUnk("units"), note="C03"))
 
@@ -1546,7 +1590,10 @@ def rtf_contracts():
     isskip = FnContract(target=f"{RTF}::{ISSKIP}", params=sk_.params({"self": p_self, "ahead": p_str()}), assumed=True,
                         returns=lambda c: VBool(IS_SKIP(sk_(c, "ahead").t)),
                         note="fallback only (the destination table is not a literal class constant): which control words are destinations is uninterpreted")
-    isskip_v = rtf_skip_contract(ISSKIP, sk_)          # round 7: VERIFIED; its call-site view is the same uninterpreted predicate
+    try:
+        isskip_v = rtf_skip_contract(ISSKIP, sk_)      # round 7: VERIFIED; its call-site view is the same uninterpreted predicate
+    except Exception:  # noqa
+        isskip_v = None
     if isskip_v is not None:
         isskip = isskip_v
 
@@ -1759,6 +1806,7 @@ FUNC_OF_CHECK = {
     "epub.source": "epub_extractor.py::read_epub",
     "rtf.unicode": "rtf_extractor.py::_decode_unicode_run",
     "rtf.skip": "rtf_extractor.py::_RtfParser._is_skip_destination",
+    "dt.units": "data_types.py::_join_unit_text",
 }
 
 # (round 7) functions whose contract is VERIFIED while their body has the shape the contract is written for and that fall back to
@@ -2980,6 +3028,7 @@ BOUNDED = [
     "ods _extract_sheet text / xlsx, xls _format_sheet_as_text: all grids with <= 3 rows x <= 3 cells (ragged), cells out of {token, empty, two words}; ods also repeated rows / cells",
     "odg _extract_full_text: one page with <= 2 shapes out of 8 constructs; pptx _extract_text_from_paragraphs: txBody with <= 2 paragraphs of <= 3 items (526 bodies; "
     "since round 7 a concrete validation of the PROVED contract, no longer the only check)",
+    "data_types _join_unit_text: lists of <= 3 units out of 4 texts: concrete validation of the proved contract",
     "rtf _RtfParser._is_skip_destination: 99 lookaheads (excluded / ignorable destinations, body control words, destination names as plain text): "
     "concrete validation of the proved contract",
     "document level (replay/c02_docs.py): 19 flow features x {docx, odt, html, rtf, txt}, 8 deck features x {pptx, odp}, 8 workbook features x {xlsx, ods} "
